@@ -753,6 +753,46 @@ func clntGenC07(r *rng, thorough bool, f func(c *clntCase)) {
 	// a transport whose Write takes only k bytes per call (k = 1, 8, len-1) and reports the short count
 	// without an error
 	clntGenShortWrite(r, f)
+	// device-exception replies with EVERY code, for every request type and client, whole and cut at
+	// every position: the typed exception with exactly that code (5 "acknowledge" is not special)
+	for kind := 0; kind < 3; kind++ {
+		fr := clntFrOf(kind)
+		for _, fc := range fcs {
+			codes := []uint8{0, 1, 2, 3, 4, 5, 6, 7, 8, 10, 11, 12, 0x80, 0xff, r.u8(), r.u8()}
+			for j, code := range codes {
+				q := clntMkRq(r, fc, fr, r.intn(4))
+				ex := q.exception(code)
+				b := ex.bytes
+				mk(kind, q, ex, clntCutAs(b, []int{j % 3}))
+				for c := 1; c < len(b); c++ {
+					mk(kind, q, ex, clntCutAs(b, clntClassMixes[(c+j)%4], c))
+				}
+				mk(kind, q, ex, append(clntCut(b, 1+r.intn(len(b)-1)), clntTail()...))
+			}
+		}
+	}
+	// the serial client built with a read timeout (20 ms) shorter than its 30 ms settle sleep, the
+	// complete reply being available at once
+	for _, fc := range fcs {
+		for variant := 0; variant < 4; variant++ {
+			q := clntMkRq(r, fc, 1, variant)
+			rep := q.reply(r)
+			ex := q.exception(uint8(1 + r.intn(6)))
+			for _, x := range []struct {
+				rep   clntReply
+				steps []clntStep
+			}{
+				{rep, clntCut(rep.bytes)},
+				{rep, clntCutAs(rep.bytes, clntClassMixes[variant], 1+r.intn(len(rep.bytes)-1))},
+				{ex, clntCut(ex.bytes)},
+				{ex, clntCut(ex.bytes, 1+r.intn(4))},
+			} {
+				i++
+				f(&clntCase{kind: 2, conn: true, flusher: i%3 == 0, hooks: i%2 == 0, rq: q,
+					sc: clntScript{steps: x.steps}, want: x.rep.want, ctor: 3, ctorSet: true})
+			}
+		}
+	}
 	// a reply followed by a real stall: the total timer must not be needed
 	for kind := 0; kind < 3; kind++ {
 		for _, fc := range fcs {
